@@ -7,6 +7,10 @@
 #     ops (args joined by "."; streams and session ids are small numbers):
 #       rp.S.N[.deny|.L<n>] rtmp publish (L<n>: n bytes of URL parameters)      rs.S.N[.deny]  rtmp play       ap.S.N[.deny] rtsp ANNOUNCE
 #       ap2.S.N.M[.deny] / ds2.S.N.M[.deny]  a further ANNOUNCE / DESCRIBE (new session M) on the command connection of session N
+#       psuccm.S.I   like psucc, the origin sending one audio message (and a ping request) in the SAME write as its answer to play;
+#                    result <attempt>~m<http-flv subscribers that message was written to, joined by +>
+#       sdp.S        observation: the input whose SDP the group of S holds (what an RTSP DESCRIBE is answered with): c<N> / p<S>_<I> / -
+#                    (every RTSP input of the harness - ANNOUNCE, stub origin of an rtsp:// pull - has an SDP of its own)
 #       rp2.S.N / rs2.S.N  a further publish / play command naming stream S on the connection of RTMP session N
 #       requests through the real HTTP API server (a numeric key is a = absent, z = null, q = a string, or an integer):
 #         hpull.S.T.R.A.M.FLAGS  start_relay_pull with pull_timeout_ms T, pull_retry_num R, auto_stop_pull_after_no_out_ms A, rtsp_mode M;
@@ -119,10 +123,11 @@ def gen_foreign():
     # a pull of each protocol still connecting when a publisher of each kind arrives, every outcome
     for proto in ("", ".rtsp"):
         for b in ("rp", "ap", "cp", "pp"):
-            for out in (["pfail.1.1"], ["psucc.1.1"], ["psucc.1.1", "tick.6", "pdone.1.1"], ["xpull.1", "psucc.1.1"], ["xpull.1", "pfail.1.1"],
-                        ["kick.1.p1_1", "psucc.1.1"]):
-                ops = ["fs.1.90", "spull.1.1.n1" + proto] + arrive(b, 1, 1) + media(b, 1) + out + media(b, 1) + ["tick.1", "rp.1.7", "cp.1.8"] \
-                    + depart(b, 1, 1, "gone") + ["tick.2", "psucc.1.0", "tick.3", "pdone.1.0", "tick.4"]
+            # the origin sends media right behind its answer to play (psuccm); the SDP the group holds is observed around it
+            for out in (["pfail.1.1"], ["psuccm.1.1"], ["psuccm.1.1", "tick.6", "pdone.1.1"], ["xpull.1", "psuccm.1.1"], ["xpull.1", "pfail.1.1"],
+                        ["kick.1.p1_1", "psuccm.1.1"], ["psucc.1.1"]):
+                ops = ["fs.1.90", "spull.1.1.n1" + proto] + arrive(b, 1, 1) + ["sdp.1"] + media(b, 1) + out + ["sdp.1"] + media(b, 1) + ["tick.1", "rp.1.7", "cp.1.8"] \
+                    + depart(b, 1, 1, "gone") + ["sdp.1", "tick.2", "psuccm.1.0", "sdp.1", "tick.3", "pdone.1.0", "sdp.1", "tick.4"]
                 yield Case(line(ops), cls="overtaken%s-%s" % (proto.replace(".", "-"), b))
 
 
@@ -206,7 +211,9 @@ def rand_history(rng, n_ops, streams):
         elif r < 0.74:
             ops.append("spull.%d.%s.%s%s" % (s, rng.choice(["0", "1", "n1"]), rng.choice(["n1", "n1", "0", "5000"]), rng.choice(["", "", ".rtsp"])))
         elif r < 0.84:
-            ops.append("%s.%d.0" % (rng.choice(["psucc", "pfail", "pdone", "psucc"]), s))
+            ops.append("%s.%d.0" % (rng.choice(["psucc", "pfail", "pdone", "psuccm"]), s))
+            if rng.random() < 0.4:
+                ops.append("sdp.%d" % s)
         elif r < 0.88:
             ops.append("xpull.%d" % s)
         elif r < 0.93:
@@ -279,7 +286,24 @@ def gen_api_inputs():
                      "gone.1", "gone.2", "gone.3", "tick.1"]), cls="api-kick")
 
 
+def gen_content():
+    # what of an input's content reaches the group: the SDP (sdp.S) and media behind the origin's answer (psuccm)
+    # a pull that was stopped while connecting, no input at all; then inputs of both kinds
+    for proto in ("", ".rtsp"):
+        yield Case(line(["fs.1.90", "spull.1.0.n1" + proto, "xpull.1", "psuccm.1.0", "sdp.1", "ap.1.1", "sdp.1", "gone.1", "sdp.1", "rp.1.2", "sdp.1", "gone.2", "tick.1"]), cls="content-stopped")
+        yield Case(line(["spull.1.0.n1" + proto, "kick.1.p1_1", "fs.1.90", "psuccm.1.0", "sdp.1", "tick.1", "sdp.1"]), cls="content-stopped")
+        # RTSP subscribers waiting for / asking for the SDP while a pull is overtaken
+        yield Case(line(["ds.1.7", "spull.1.0.n1" + proto, "rp.1.1", "psuccm.1.0", "sdp.1", "ds.1.8", "gone.1", "sdp.1", "ap.1.2", "sdp.1", "ds.1.9", "pl.9", "gone.2", "sdp.1", "gone.7", "gone.8", "gone.9", "tick.1"]), cls="content-subs")
+        # the accepted inputs themselves: attached pull, RTSP publisher, one after the other, two streams
+        yield Case(line(["fs.1.90", "fs.2.91", "spull.1.n1.n1" + proto, "psuccm.1.0", "sdp.1", "sdp.2", "ap.2.1", "sdp.2", "sdp.1", "pdone.1.0", "sdp.1", "psuccm.1.0", "sdp.1",
+                         "xpull.1", "sdp.1", "gone.1", "sdp.2", "tick.1", "sdp.3"]), cls="content-accepted")
+        yield Case(line(["fs.1.90", "psuccm.1.0", "sdp.1", "rp.1.1", "pdone.1.0", "sdp.1", "psuccm.1.0", "gone.1", "tick.1", "psuccm.1.0", "sdp.1", "gone.90", "tick.2", "tick.3", "sdp.1"], "static=1"), cls="content-accepted")
+    yield Case(line(["ap.1.1", "sdp.1", "ap.1.2", "sdp.1", "kick.1.c1", "sdp.1", "gone.2", "sdp.1", "gone.1", "sdp.1", "ap.1.3", "sdp.1", "dispose", "sdp.1"]), cls="content-accepted")
+    yield Case(line(["fs.1.90", "fs.1.91", "spull.1.n1.n1", "psuccm.1.0", "gone.90", "pdone.1.0", "rp.1.1", "psuccm.1.0", "media.1", "gone.1", "psuccm.1.0", "tick.1"]), cls="content-accepted")
+
+
 def gen_cases(tier, rng):
+    yield from gen_content()
     yield from gen_rtmp_conn()
     yield from gen_api_inputs()
     yield from gen_rtsp_conn()
@@ -360,7 +384,7 @@ def api_layer(ops, out):
     """-> (error or None, ops with every API request replaced by the direct call it must amount to, output without the
     settings suffixes).  A request that must be answered with "param missing" becomes the no-op adv.0."""
     segs = out.split(";")
-    if not any(o.startswith("h") for o in ops) or len([x for x in segs if not x.startswith("anomaly:")]) != len(ops):
+    if not any(o.startswith(("h", "psuccm")) for o in ops) or len([x for x in segs if not x.startswith("anomaly:")]) != len(ops):
         return None, ops, out
     new_ops, new_segs = [], []
     for idx, (op, seg) in enumerate(zip(ops, segs)):
@@ -369,7 +393,11 @@ def api_layer(ops, out):
         res, _, rest = seg.partition("/")
         nop, nres = op, res
         missing = None
-        if f[0] == "hpull":
+        if f[0] == "psuccm":
+            # psucc; the subscribers the message behind the answer was written to travel on as a fourth field of the op
+            name, sep, got = res.partition("~m")
+            nop, nres = "psucc.%s.%s.m%s" % (f[1], f[2], got if sep else "?"), name
+        elif f[0] == "hpull":
             keys = ["pull_timeout_ms", "pull_retry_num", "auto_stop_pull_after_no_out_ms", "rtsp_mode"]
             vals = [api_value(t, k) for t, k in zip(f[2:6], keys)]
             missing = "u" in f[6] or None in vals
@@ -513,6 +541,10 @@ def oracle(c, out):
             if res != "x":
                 subject = res
                 if o == "psucc":
+                    if len(f) > 3 and f[3] != "m" and subject not in occupants(groups.get(subj_stream)):
+                        # nothing of a relay pull that the group did not attach is forwarded
+                        return (False, where + "media of the refused relay pull %s (sent by the origin right behind its answer) was forwarded to %s"
+                                % (subject, f[3][1:]))
                     before = prev.get(subj_stream)
                     if before and occupants(before) and subject in occupants(groups.get(subj_stream)):
                         return (False, where + "relay pull attached although %s is the input" % occupants(before)[0])
@@ -520,6 +552,15 @@ def oracle(c, out):
                         must_finish.add(subject)
                 else:
                     must_finish.add(subject)
+        elif o == "sdp":
+            # the SDP a group holds (and answers DESCRIBE with) is that of its accepted RTSP input, if any
+            g = groups.get("s" + f[1])
+            want = "-"
+            if g:
+                want = g["slots"][1] if g["slots"][1] != "-" else g["slots"][5]
+            if res != want:
+                whose = "a refused input" if (res in must_finish or not accepted.get(res, True)) else ("a departed input" if res in gone or res in finished_atts else "another session")
+                return (False, where + "the group of s%s holds the SDP of %s (%s); its accepted RTSP input is %s" % (f[1], res, whose, want if want != "-" else "none"))
         elif o == "spull":
             if res.startswith("0:"):
                 before = prev.get("s" + f[1])
